@@ -93,6 +93,8 @@ def run(eng: Engine, ck: Check):
     n_pi = per_instance_state_rule(eng, ck, 'R-C14-FANOUT', [eng.cls('PeerConnection', CONN), dn],
                                    'the search request queued for one child must not be visible to (or cancelled by the close of) any other connection')
     ck.floor('R-C14-FANOUT.per-instance', n_pi, 2)
+    from . import defs
+    defs.queue_messages_definition(eng, ck, 'R-C14-FANOUT')
     fwd = handlers_for(eng, dn)
     ck.floor('R-C14-FANOUT.handlers', len(fwd), 3)
     for h, carrier in fwd:
